@@ -104,6 +104,11 @@ func genDocKey(t *rapid.T, id string, consistent bool) map[string]interface{} {
 		mat = genKey(t, "material")
 	}
 	useB58 := typ != tJWK2020 && rapid.IntRange(0, 2).Draw(t, "b58") == 0
+	if !consistent && !useB58 && rapid.IntRange(0, 7).Draw(t, "rsaJwk") == 0 {
+		// a complete RSA JWK is a well-formed JWK too
+		key["publicKeyJwk"] = map[string]interface{}{"kty": "RSA", "n": "sXchDaQebHnPiGvyDOAT4saGEUetSyo9MKLOoWFsueri23bOdgWp4Dy1WlUzewbgBHod5pcM9H95GQRV3JDXboIRROSBigeC5yjU1hGzHHyXss8UDprecbAYxknTcQkhslANGRUZmdTOQ5qTRsLAt6BTYuyvVRdhS8exSZEy_c4gs_7svlJJQ4H9_NxsiIoLwAEk7-Q3UXERGYw_75IDrGA84-lA_-Ct4eTlXHBIY2EaV7t7LjJaynVJCpkv4LKjTTAumiGUIuQhrNhZLuF_RJLqHpM2kgWFLU7-VTdL1VbC2tejvcI2BlMkEpk1BzBZI0KQB0GaDWFLN-aEAw3vRw", "e": "AQAB"}
+		return key
+	}
 	if useB58 {
 		x, _ := mat.XY()
 		key["publicKeyBase58"] = base58.Encode(x)
